@@ -5,7 +5,7 @@
  * SCPI_Input with a command table made of the library's own handlers; after every single operation
  * the monitors read all registers with SCPI_RegGet / SCPI_ErrorCount and compare with what the
  * property statement says.  Workloads:
- *   phase "sweep" (C12) every int16_t error code pushed on a context with ESR = 0 / ESR = prior.
+ *   phase "sweep" (C12) every int16_t error code pushed on a context with ESR = 0 / ESR = prior / full queue.
  *   phase "bfs"   breadth-first search over the reachable states of a bounded operation alphabet
  *                 (a "slice": which representative bits each register may be given, which error
  *                 codes may be pushed, queue capacity 2).  state = registers[] + queue count;
@@ -141,11 +141,16 @@ static void op_text(vh_buf_t * b, const op_t * op) {
 }
 
 /* ---- observation ------------------------------------------------------------------------------ */
-typedef struct { uint16_t r[NREG]; int32_t count; } obs_t;
+typedef struct { uint16_t r[NREG]; int32_t count; int32_t last; } obs_t; /* last: code of the most recently queued entry (0 if none) */
 static void observe(scpi_t * c, obs_t * o) {
     int i;
     for (i = 0; i < NREG; i++) o->r[i] = SCPI_RegGet(c, (scpi_reg_name_t) i);
     o->count = SCPI_ErrorCount(c);
+    o->last = 0;
+    if (o->count > 0) { /* only used to learn which code the library queued when the queue was full */
+        const scpi_fifo_t * f = &c->error_queue;
+        o->last = f->data[(f->wr + f->size - 1) % f->size].error_code;
+    }
 }
 static void obs_text(vh_buf_t * b, const obs_t * o) {
     int i;
@@ -214,12 +219,12 @@ static void check_cmd_accepted(vh_ctx_t * v, const op_t * op) {
     X(N_LATCH_W, "c12.latch.condition_writes") X(N_LATCH_RISE, "c12.latch.condition_writes_with_rising_bits") \
     X(N_LOSS_OK, "c12.hold.event_bits_cleared_by_listed_operation") X(N_HOLD, "c12.hold.operations_checked") \
     X(N_CLEAR_CHK, "c12.clear.query_or_cls_checked") X(N_PRES_CLEARS, "c12.clear.preset_cleared_ques") \
-    X(N_CLASS, "c12.class.pushes_checked") X(N_CLASS_OVF, "c12.class.pushes_on_full_queue_not_asserted") \
-    X(N_CLASS_OVF_NODDE, "c12.class.overflow_push_left_dde_clear") \
+    X(N_CLASS, "c12.class.pushes_checked") X(N_CLASS_OVF, "c12.class.pushes_on_full_queue_checked") \
+    X(N_CLASS_OVF_REPLACED, "c12.class.pushes_on_full_queue_replaced_by_another_code") \
     X(N_SRQ_EV, "c12.srq.callbacks") X(N_SRQ_RISE, "c12.srq.mss_rises") X(N_SRQ_REPEAT, "c12.srq.callbacks_while_mss_stays_set") \
     X(N_SRQ_QUIET, "c12.srq.operations_with_mss_clear_before_and_after") X(N_SRQ_FALL_EV, "c12.srq.callbacks_in_operations_ending_with_mss_clear") \
     X(N_SRQ_INTERMEDIATE, "c12.srq.callback_value_is_an_intermediate_status_byte") \
-    X(N_SWEEP, "c12.sweep.codes") X(N_SWEEP_PRIOR, "c12.sweep.codes_with_prior_esr")
+    X(N_SWEEP, "c12.sweep.codes") X(N_SWEEP_PRIOR, "c12.sweep.codes_with_prior_esr") X(N_SWEEP_FULL, "c12.sweep.codes_on_full_queue")
 #define X(id, name) id,
 enum { CTRS(X) N__CTR };
 #undef X
@@ -347,9 +352,14 @@ static void monitors(const op_t * op, const obs_t * b, const obs_t * a, int qcap
                          (unsigned) (ea & ~(eb | bit)) & 0xffff);
                 }
             } else {
-                /* queue full: the library queues -350 instead of the code; the statement does not say which bits this sets */
+                /* queue full: the code itself is not queued, the library queues another one in its place (-350, queue
+                 * overflow).  What the discarded code may set is not stated; the error that WAS queued must set its bit. */
+                const char * qcls; uint16_t qbit = ref_class(a->last, &qcls);
                 ctr[N_CLASS_OVF]++;
-                if (!(ea & B_DDE)) ctr[N_CLASS_OVF_NODDE]++;
+                if (a->last != op->code) ctr[N_CLASS_OVF_REPLACED]++;
+                if ((ea & qbit) != qbit)
+                    find("C12:queue-overflow-error-not-classified", "error %d pushed on a full queue, the library queued %d (%s class) in its place, ESR went 0x%04x -> 0x%04x, class bit 0x%02x of the queued error not set",
+                         (int) op->code, (int) a->last, qcls, eb, ea, qbit);
             }
         }
         /* (2a) latch: a 0->1 change of a condition bit sets the same event bit; what was set stays set */
@@ -782,22 +792,23 @@ static void sweep_run(uint64_t idx, vh_rng_t * rng) {
     for (i = 0; i < SWEEP_BLOCK; i++) {
         int code = (int) idx * SWEEP_BLOCK - 32768 + i;
         vh_sub = (uint64_t) (uint16_t) (int16_t) code;
-        for (pass = 0; pass < 2; pass++) {
+        for (pass = 0; pass < 3; pass++) {
             op_t op; obs_t b, a; int f;
             memcpy(v->ctx, base, sizeof(scpi_t)); memcpy(v->queue, qbase, qbytes);
             if (pass == 1) SCPI_RegSet(v->ctx, SCPI_REG_ESR, rnd_val(rng)); /* bits already set must survive, nothing but the class bit is added */
+            if (pass == 2) { SCPI_ErrorPush(v->ctx, -50); SCPI_ErrorPush(v->ctx, -50); } /* queue of two is full, ESR still 0 */
             memset(&op, 0, sizeof op); op.kind = K_PUSH; op.code = (int16_t) code;
             observe(v->ctx, &b);
-            if (pass == 0 && b.r[SCPI_REG_ESR] != 0) { vh_violation("C12:harness-esr-not-zero", "fresh context has ESR=0x%04x", b.r[SCPI_REG_ESR]); break; }
+            if (pass != 1 && b.r[SCPI_REG_ESR] != 0) { vh_violation("C12:harness-esr-not-zero", "fresh context has ESR=0x%04x", b.r[SCPI_REG_ESR]); break; }
             run_op(v, &op);
             observe(v->ctx, &a);
             monitors(&op, &b, &a, 2);
-            ctr[pass ? N_SWEEP_PRIOR : N_SWEEP]++;
+            ctr[pass == 0 ? N_SWEEP : pass == 1 ? N_SWEEP_PRIOR : N_SWEEP_FULL]++;
             for (f = 0; f < nfound; f++) {
                 if (key_seen(found[f].key)) vh_violation(found[f].key, "(repeat)");
                 else {
                     vh_buf_t t = { 0 };
-                    vh_buf_printf(&t, "fresh context%s; SCPI_ErrorPush(%d) | before: ", pass ? " with ESR preset" : "", code); obs_text(&t, &b);
+                    vh_buf_printf(&t, "fresh context (queue capacity 2)%s; SCPI_ErrorPush(%d) | before: ", pass == 1 ? " with ESR preset" : pass == 2 ? "; SCPI_ErrorPush(-50); SCPI_ErrorPush(-50)" : "", code); obs_text(&t, &b);
                     vh_buf_adds(&t, " | after: "); obs_text(&t, &a);
                     vh_violation(found[f].key, "%s | %s", found[f].msg, vh_buf_cstr(&t));
                     vh_buf_free(&t);
@@ -810,7 +821,7 @@ static void sweep_run(uint64_t idx, vh_rng_t * rng) {
             }
         }
     }
-    vh_eval(2 * SWEEP_BLOCK);
+    vh_eval(3 * SWEEP_BLOCK);
     memcpy(v->ctx, base, sizeof(scpi_t)); memcpy(v->queue, qbase, qbytes);
     vh_ctx_free(v); free(base); free(qbase);
     flush_counters();
